@@ -30,6 +30,7 @@ type Config struct {
 	MaxChoice int
 	Redirect  map[string]string // callee full name -> replacement function full name
 	Cuts      map[string]bool   // names for which rt.CutActive returns true
+	ScaleConsts  map[string]map[string]int64 // function -> integer literal -> value used instead (a threshold scaled down; part of the stated bound)
 	AbsHex       bool           // hex.EncodeToString of symbolic bytes is abstract text (inverted by hex.DecodeString), not executed
 	LazyBigBytes bool           // (*big.Int).Bytes returns a LazyBytes value (forced on first use other than a call/store/return)
 	Concrete  []int64           // concrete mode: values for Nondet calls (translator validation / replay-in-engine)
@@ -995,6 +996,17 @@ func (m *Machine) constVal(c *ssa.Const) Value {
 func (m *Machine) get(fr *frame, v ssa.Value) Value {
 	switch x := v.(type) {
 	case *ssa.Const:
+		if sc := m.Cfg.ScaleConsts; sc != nil && x.Value != nil && x.Value.Kind() == constant.Int {
+			if tbl, ok := sc[fr.fn.String()]; ok {
+				if to, ok2 := tbl[x.Value.ExactString()]; ok2 {
+					if u, okb := x.Type().Underlying().(*types.Basic); okb {
+						if nt, oki := intInfo(u); oki {
+							return m.numConst(nt, big.NewInt(to))
+						}
+					}
+				}
+			}
+		}
 		return m.constVal(x)
 	case *ssa.Global:
 		return Ptr{Obj: m.global(x)}
